@@ -237,6 +237,8 @@ class Kernel(object):
     def fork(self):
         self.boundary("fork")
         self.fork_count += 1
+        if getattr(self, "pid_wrap", None) is not None and self.fork_count == self.pid_wrap + 1:
+            self.next_pid = 300          # the kernel's pid counter wraps: later children get smaller pids than earlier ones
         pid = self.next_pid
         self.next_pid += 1
         w = self.workers_created[-1] if self.workers_created else None
@@ -375,6 +377,20 @@ class Kernel(object):
                 p.hb = self.heartbeat_frozen(p)
                 self.trace.append(("died", p.pid, ev[2], round(self.clock, 2)))
             self.deliver(real_signal.SIGCHLD)
+        elif kind == "msig":
+            # the master itself is told to stop
+            self.trace.append(("master-signal", ev[1], round(self.clock, 2)))
+            self.stop_signal_at = self.clock
+            self.live_at_stop = [p.pid for p in live]
+            self.deliver(getattr(real_signal, ev[1]))
+        elif kind == "exit_soon":
+            # a worker is on its way out by itself (max_requests reached, crash in progress): it dies at one of the arbiter's next
+            # system-call boundaries
+            if live:
+                p = live[ev[1] % len(live)]
+                if p.die_in is None:
+                    p.status = ev[2]
+                    p.die_in = 1 + self.draw(3)
         elif kind == "bootfail":
             # nothing can boot any more (broken application / hook): every live worker exits with the boot-error status, one after
             # the other, at the arbiter's next system-call boundaries - including those of an already running halt()
